@@ -7,10 +7,13 @@
 package main
 
 import (
+	"bytes"
 	"fmt"
 	"math/big"
 	"runtime"
 	"strings"
+	"sync"
+	"sync/atomic"
 	"time"
 
 	"github.com/kardiachain/go-kardia/configs"
@@ -43,7 +46,7 @@ func chainTok(s string) int {
 }
 
 func addr(i int) common.Address { return common.BytesToAddress([]byte{byte(i)}) }
-func bnum(b []byte) string     { return new(big.Int).SetBytes(b).String() }
+func bnum(b []byte) string      { return new(big.Int).SetBytes(b).String() }
 func tmTok(t time.Time) int64 {
 	if t.IsZero() {
 		return 0
@@ -146,6 +149,67 @@ func stateObs(s *cstate.LatestBlockState) string {
 		paramTok(s.ConsensusParams), setObs(s.LastValidators), setObs(s.Validators), setObs(s.NextValidators))
 }
 
+// ---------------------------------------------------------------- recording database
+//
+// recDB hands every call through to the wrapped kaidb but keeps the KEY SLICES it was given
+// without copying them, together with a copy of their bytes at the time of the call.  A key
+// constructor that returns memory it (or another constructor call) later overwrites — two keys
+// sharing one backing array — shows up as a kept slice whose bytes changed afterwards.  This is
+// deterministic: no scheduling is involved.  (In the node such aliasing makes a Save land under
+// another height's key, or a Load mix two heights, whenever another goroutine computes a key
+// between the key computation and the database's own copy of it.)
+type recDB struct {
+	kaidb.Database
+	mu   sync.Mutex
+	on   bool
+	keys [][]byte
+	was  []string
+}
+
+func (r *recDB) note(k []byte) {
+	r.mu.Lock()
+	if r.on && len(r.keys) < 200000 {
+		r.keys = append(r.keys, k)
+		r.was = append(r.was, string(k))
+	}
+	r.mu.Unlock()
+}
+func (r *recDB) enable(b bool) { r.mu.Lock(); r.on = b; r.mu.Unlock() }
+
+func (r *recDB) Has(k []byte) (bool, error)   { r.note(k); return r.Database.Has(k) }
+func (r *recDB) Get(k []byte) ([]byte, error) { r.note(k); return r.Database.Get(k) }
+func (r *recDB) Put(k, v []byte) error        { r.note(k); return r.Database.Put(k, v) }
+func (r *recDB) Delete(k []byte) error        { r.note(k); return r.Database.Delete(k) }
+func (r *recDB) NewBatch() kaidb.Batch        { return &recBatch{Batch: r.Database.NewBatch(), r: r} }
+
+type recBatch struct {
+	kaidb.Batch
+	r *recDB
+}
+
+func (b *recBatch) Put(k, v []byte) error { b.r.note(k); return b.Batch.Put(k, v) }
+func (b *recBatch) Delete(k []byte) error { b.r.note(k); return b.Batch.Delete(k) }
+
+// changed returns the first kept key whose bytes are no longer what they were when it was used.
+func (r *recDB) changed() (bool, string) {
+	r.mu.Lock()
+	defer r.mu.Unlock()
+	for i, k := range r.keys {
+		if string(k) != r.was[i] {
+			return true, fmt.Sprintf("key #%d was %q (%x) when passed to the database and reads %x after later key constructions", i, prefixOf(r.was[i]), r.was[i], k)
+		}
+	}
+	return false, ""
+}
+
+func prefixOf(k string) string {
+	n := 0
+	for n < len(k) && (k[n] >= 'A' && k[n] <= 'Z' || k[n] >= 'a' && k[n] <= 'z') {
+		n++
+	}
+	return k[:n]
+}
+
 // ---------------------------------------------------------------- panics
 
 func catch(f func()) (class string) {
@@ -178,6 +242,7 @@ type env struct {
 	o      *out.Out
 	r      *gen.Rand
 	db     kaidb.Database
+	rec    *recDB
 	store  cstate.Store
 	cur    cstate.LatestBlockState // state the "node" holds
 	saved  map[uint64]*cstate.LatestBlockState
@@ -686,21 +751,201 @@ func membership(vs *types.ValidatorSet) map[int]int64 {
 	return m
 }
 
+// ---------------------------------------------------------------- concurrency family
+//
+// In the node the evidence pool and the RPC layer read the store (LoadValidators, Load,
+// LoadConsensusParams) while ApplyBlock saves the next state.  The family runs K reader
+// goroutines against the Saves of a few heights (phase 1) and then readers only (phase 2) and
+// compares every result with the single-threaded expectation.  Nothing of it goes to the model
+// trace except the Saves themselves (whose effect must be the sequential one).
+
+type expect struct {
+	mu     sync.RWMutex
+	states map[uint64]*cstate.LatestBlockState // registered BEFORE the Save of that height starts
+	done   int64                               // highest height whose Save has returned
+}
+
+func (x *expect) get(h uint64) *cstate.LatestBlockState {
+	x.mu.RLock()
+	defer x.mu.RUnlock()
+	return x.states[h]
+}
+func (x *expect) put(h uint64, s *cstate.LatestBlockState) {
+	x.mu.Lock()
+	x.states[h] = s
+	x.mu.Unlock()
+}
+func (x *expect) max() uint64 {
+	x.mu.RLock()
+	defer x.mu.RUnlock()
+	var m uint64
+	for h := range x.states {
+		if h > m {
+			m = h
+		}
+	}
+	return m
+}
+
+type concFails struct {
+	mu sync.Mutex
+	l  []string
+}
+
+func (c *concFails) add(format string, a ...interface{}) {
+	c.mu.Lock()
+	if len(c.l) < 4 {
+		c.l = append(c.l, fmt.Sprintf(format, a...))
+	}
+	c.mu.Unlock()
+}
+
+// reader: until *stop is set (iters < 0) or for iters operations.
+func concReader(store cstate.Store, x *expect, seed uint64, stop *int32, iters int, savesRunning bool, fails *concFails) {
+	r := gen.New(seed)
+	for i := 0; iters < 0 || i < iters; i++ {
+		if atomic.LoadInt32(stop) != 0 {
+			return
+		}
+		doneBefore := uint64(atomic.LoadInt64(&x.done))
+		h := uint64(r.Intn(int(x.max()) + 2))
+		switch r.Pick(3, 1, 2) {
+		case 0:
+			var vs *types.ValidatorSet
+			var err error
+			if pc := catch(func() { vs, err = store.LoadValidators(h) }); pc != "" {
+				fails.add("LoadValidators(%d) panicked (%s)", h, pc)
+				continue
+			}
+			want := x.get(h)
+			switch {
+			case err != nil && h >= 1 && h <= doneBefore:
+				fails.add("LoadValidators(%d) = %s although the state of that height had been saved (done=%d)", h, valsErrClass(err), doneBefore)
+			case err == nil && (want == nil || want.LastValidators == nil):
+				fails.add("LoadValidators(%d) returned %s although no state with a last validator set exists for that height", h, setObs(vs))
+			case err == nil && keylist(vs) != keylist(want.LastValidators):
+				fails.add("LoadValidators(%d) entitled=%s returned=%s", h, setObs(want.LastValidators), setObs(vs))
+			}
+		case 1:
+			var p kproto.ConsensusParams
+			var err error
+			pc := catch(func() { p, err = store.LoadConsensusParams(h) })
+			want := x.get(h)
+			if h <= doneBefore {
+				if pc != "" || err != nil {
+					fails.add("LoadConsensusParams(%d) failed although the state of that height had been saved", h)
+				} else if want != nil && !want.ConsensusParams.Equal(&p) {
+					fails.add("LoadConsensusParams(%d) returned other params", h)
+				}
+			}
+		case 2:
+			var l cstate.LatestBlockState
+			if pc := catch(func() { l = store.Load() }); pc != "" {
+				fails.add("Load panicked (%s)", pc)
+				continue
+			}
+			if l.IsEmpty() {
+				if !savesRunning {
+					fails.add("Load returned the empty state although the head state is saved")
+				}
+				continue // phase 1: the head block is stored before its state is saved
+			}
+			want := x.get(l.LastBlockHeight)
+			if want == nil {
+				fails.add("Load returned a state of unknown height %d", l.LastBlockHeight)
+				continue
+			}
+			if l.LastBlockHeight < doneBefore {
+				fails.add("Load returned height %d although height %d had been saved", l.LastBlockHeight, doneBefore)
+			}
+			if l.ChainID != want.ChainID || l.InitialHeight != want.InitialHeight || !l.LastBlockID.Equal(want.LastBlockID) ||
+				tmTok(l.LastBlockTime) != tmTok(want.LastBlockTime) || l.AppHash != want.AppHash || !l.ConsensusParams.Equal(&want.ConsensusParams) {
+				fails.add("Load at height %d: scalar fields differ from the saved state", l.LastBlockHeight)
+			}
+			for _, name := range []string{"LastValidators", "Validators", "NextValidators"} {
+				var a, b *types.ValidatorSet
+				switch name {
+				case "LastValidators":
+					a, b = want.LastValidators, l.LastValidators
+				case "Validators":
+					a, b = want.Validators, l.Validators
+				default:
+					a, b = want.NextValidators, l.NextValidators
+				}
+				if keylist(a) != keylist(b) {
+					fails.add("Load at height %d: %s saved=%s loaded=%s (members of another height)", l.LastBlockHeight, name, setObs(a), setObs(b))
+				}
+			}
+		}
+	}
+}
+
+const concK = 4
+
+// concPhase2AndVerify: readers only, then the placement of every state record.
+func (e *env) concFinish(x *expect, fails *concFails) {
+	var stop int32
+	var wg sync.WaitGroup
+	for k := 0; k < concK; k++ {
+		wg.Add(1)
+		seed := e.r.U64()
+		go func() {
+			defer wg.Done()
+			concReader(e.store, x, seed, &stop, 250, false, fails)
+		}()
+	}
+	wg.Wait()
+	for _, f := range fails.l {
+		e.o.Fail(e.step, "concurrent-load-differs", f)
+	}
+	for h := uint64(0); h <= e.head; h++ {
+		want := e.saved[h]
+		if want == nil || e.pruned[h] {
+			continue
+		}
+		sp := rawdb.ReadConsensusStateHeight(e.db, h)
+		switch {
+		case sp == nil:
+			e.o.Fail(e.step, "concurrent-save-misplaced", fmt.Sprintf("height=%d: no state record under its key after concurrent reads", h))
+		case !bytes.Equal(sp.NextValidatorsInfoHash, want.NextValidators.Hash().Bytes()) || !bytes.Equal(sp.ValidatorsInfoHash, want.Validators.Hash().Bytes()):
+			e.o.Fail(e.step, "concurrent-save-misplaced", fmt.Sprintf("height=%d: the record under its key is the record of another height", h))
+		}
+	}
+}
+
 func runCase(o *out.Out, r *gen.Rand, c int) {
 	e := &env{o: o, r: r, saved: map[uint64]*cstate.LatestBlockState{}, vkeys: map[string]bool{}, pkeys: map[string]bool{},
 		lastWritten: map[string]*types.ValidatorSet{}, pruned: map[uint64]bool{}, hashOf: map[string]common.Hash{}, deletedBy: map[string]int{}}
-	mdb := memorydb.New()
-	e.db = mdb
-	e.store = cstate.NewStore(mdb)
+	e.rec = &recDB{Database: memorydb.New(), on: true}
+	e.db = e.rec
+	e.store = cstate.NewStore(e.rec)
+	defer func() {
+		// key-construction purity, checked over every key the whole case handed to the database
+		if bad, what := e.rec.changed(); bad {
+			o.Fail(e.step, "key-aliasing", what)
+		}
+	}()
 	o.Case(c, fmt.Sprintf("CASE %d", c))
 
 	scenario := r.Pick(3, 3, 3, 2, 3) // static | busy | recurring | power-only | mixed
 	scen := []string{"static", "busy", "recurring", "poweronly", "mixed"}[scenario]
-	o.Count("scenario." + scen)
 	n := 1 + r.Intn(30)
 	if r.Chance(1, 8) {
 		n = 1 + r.Intn(3)
 	}
+	// concurrency family: readers run against the Saves of heights concStart..concEnd
+	conc := r.Chance(1, 6) && n >= 4
+	var concStart, concEnd uint64
+	if conc {
+		scen = "busy" // the sets must differ between heights for a mixed-up read to be visible
+		concStart = uint64(2 + r.Intn(n-2))
+		concEnd = concStart + uint64(1+r.Intn(4))
+		if concEnd > uint64(n) {
+			concEnd = uint64(n)
+		}
+		o.Count("family.concurrent")
+	}
+	o.Count("scenario." + scen)
 	o.Count(fmt.Sprintf("chainlen.%02d-%02d", (n-1)/5*5+1, (n-1)/5*5+5))
 
 	// ---- genesis document
@@ -782,8 +1027,42 @@ func runCase(o *out.Out, r *gen.Rand, c int) {
 	lastChanged := false
 	tm := t0
 	alive := true
+	var (
+		xp       *expect
+		cfails   *concFails
+		cstop    int32
+		cwg      sync.WaitGroup
+		concOpen bool
+	)
+	closeConc := func() {
+		if !concOpen {
+			return
+		}
+		atomic.StoreInt32(&cstop, 1)
+		cwg.Wait()
+		concOpen = false
+		e.concFinish(xp, cfails)
+		e.rec.enable(true)
+	}
 	for h := uint64(1); h <= uint64(n) && alive; h++ {
 		e.step++
+		if conc && h == concStart {
+			xp = &expect{states: map[uint64]*cstate.LatestBlockState{}, done: int64(e.head)}
+			for k, v := range e.saved {
+				xp.states[k] = v
+			}
+			cfails = &concFails{}
+			e.rec.enable(false) // the readers' keys are not kept
+			concOpen = true
+			for k := 0; k < concK; k++ {
+				cwg.Add(1)
+				seed := r.U64()
+				go func() {
+					defer cwg.Done()
+					concReader(e.store, xp, seed, &cstop, -1, true, cfails)
+				}()
+			}
+		}
 		// validator changes of this block
 		var changes []*types.Validator
 		curM := membership(e.cur.NextValidators)
@@ -863,7 +1142,11 @@ func runCase(o *out.Out, r *gen.Rand, c int) {
 			history = append(history, membership(ns.NextValidators))
 		}
 		e.o.Op(fmt.Sprintf("U %s %d %s", blk, ch, setTok(ns.NextValidators)), "u "+stateObs(&ns))
+		if concOpen {
+			xp.put(h, copyState(ns))
+		}
 		if pc := catch(func() { e.store.Save(ns) }); pc != "" {
+			closeConc()
 			e.o.Op("S", "s PANIC")
 			e.o.Fail(e.step, "save-panic", "Save panicked: "+pc)
 			return
@@ -872,8 +1155,18 @@ func runCase(o *out.Out, r *gen.Rand, c int) {
 		e.saved[h] = copyState(ns)
 		delete(e.pruned, h)
 		e.noteSave(e.saved[h])
+		if concOpen {
+			atomic.StoreInt64(&xp.done, int64(h))
+			if h >= concEnd {
+				closeConc()
+			}
+		}
 		// occasional restart / load / prune in the middle of the chain
-		switch r.Pick(24, 2, 1, 1) {
+		mid := r.Pick(24, 2, 1, 1)
+		if conc {
+			mid = 0 // no restarts / prunes in a case of the concurrency family before the final phase
+		}
+		switch mid {
 		case 1:
 			e.opLoad()
 			o.Count("op.load.mid")
@@ -895,6 +1188,7 @@ func runCase(o *out.Out, r *gen.Rand, c int) {
 			}
 		}
 	}
+	closeConc()
 	if !alive {
 		o.Mark(fmt.Sprintf("%s|%s|%s|dead", scen, pattern, prunePattern))
 		return
